@@ -20,7 +20,7 @@ NOT_APPLICABLE = {}
 HOOK_COMMITS = []
 
 PROPS["C03"] = {
-    "bounds": "names 0..4 ASCII bytes in the quick tier and 0..6 in the thorough tier, literal options 0..1 symbolic bytes, regex/notRegex from an enumerated family of 40 concrete patterns (obligations.py), each as regex and as notRegex; all six options on one filter (prefix / notPrefix 0..2 free bytes, sub / notSub 0..1, two concrete regex / notRegex pairs, names 0..3 bytes); aggregation path and cache: names 0..4 / 1..2 bytes; a route / destination filter with all six options set, up to two of them cleared or replaced at runtime (modRoute / modDest), names 1..3 bytes",
+    "bounds": "names 0..4 ASCII bytes in the quick tier and 0..6 in the thorough tier, literal options 0..1 symbolic bytes, regex/notRegex from an enumerated family of 40 concrete patterns (obligations.py), each as regex and as notRegex; all six options on one filter (prefix / notPrefix 0..2 free bytes, sub / notSub 0..1, two concrete regex / notRegex pairs, names 0..3 bytes); aggregation path and cache: names 0..4 / 1..2 bytes (cache also: three lookups of names of up to 3 free printable bytes under regex b$, so that tagged names sharing the text before the first ';' occur); a route / destination filter with all six options set, up to two of them cleared or replaced at runtime (modRoute / modDest), names 1..3 bytes",
     "outside": "non-ASCII names under regex filters; patterns outside the family",
     "assumptions": ["input bytes < 0x80 when a regex is configured", "regexp.Match modelled as bounded NFA unrolling of the real syntax.Prog"],
     "groups": [
@@ -58,7 +58,8 @@ C03_AGG = [("^a(b|c)", "c$"), ("^ab?c", ""), ("", "^a"), ("b", "^ab"), ("^a.c$",
 PROPS["C03"]["groups"] += [
     {"pkg": "aggregator", "hdir": "aggregator",
      "specs": [spec("C03/agg/regex=%s/notRegex=%s" % (r, n), "VerifC03Agg", {"regex": r, "notRegex": n}) for r, n in C03_AGG if r] +
-              [spec("C03/cache/regex=%s" % r, "VerifC03Cache", {"regex": r}) for r in ["^a(b|c)", "b"]]},
+              [spec("C03/cache/regex=%s" % r, "VerifC03Cache", {"regex": r}) for r in ["^a(b|c)", "b"]] +
+              [spec("C03/cache/regex=b$/names<=3", "VerifC03Cache", {"regex": "b$", "maxlen": "3"})]},
 ]
 
 PROPS["C18"] = {
@@ -82,13 +83,16 @@ PROPS["C18"] = {
 }
 
 PROPS["C02"] = {
-    "bounds": "arbitrary ASCII byte strings of 0..5 bytes as the line (quick) and arbitrary bytes (all 256 values) of 0..3 bytes (thorough) x all 3x2 configured validation levels; level names: all spellings of up to 3 bytes plus the documented ones; two to three lines of one series rejected for the same reason in a row (the report shows the latest text after each); the same gate with a blacklist entry that matches every name (lines of 0..4 ASCII bytes)",
+    "bounds": "arbitrary ASCII byte strings of 0..5 bytes as the line (quick) and arbitrary bytes (all 256 values) of 0..3 bytes (thorough) x all 3x2 configured validation levels; level names: all spellings of up to 3 bytes plus the documented ones; two to three lines of one series rejected for the same reason in a row (the report shows the latest text after each); the same gate after the table went through runtime changes (an entry of every kind added and deleted again), on lines of 0..4 bytes and on lines shaped k=v d d with free k, v (where the metrics2.0 levels disagree); the same gate with a blacklist entry that matches every name (lines of 0..4 ASCII bytes)",
     "outside": "numeric spellings accepted by strconv.ParseFloat (modelled: digit strings exactly, everything else an uninterpreted validity predicate); TOML decoding of the level strings; lines longer than the bound",
     "assumptions": ["oracle for 'passes validation' is carbon20.ValidatePacket called by the harness with the levels the harness configured (the gate must use exactly the configured levels)", "strconv.ParseFloat: exact on 1..15 digit strings, uninterpreted otherwise"],
     "groups": [
         {"pkg": "table", "hdir": "table", "specs": [
             spec("C02/gate/ascii<=5", "VerifC02Gate", {"ascii": "1", "maxlen": "xxxxx"}),
             spec("C02/gate/behind-a-blacklist/ascii<=4", "VerifC02Gate", {"ascii": "1", "maxlen": "xxxx", "blacklist": "1"}),
+            spec("C02/gate/after-runtime-changes/ascii<=4", "VerifC02Gate", {"ascii": "1", "maxlen": "xxxx", "after-changes": "1"}),
+            spec("C02/gate/after-runtime-changes/m20-shaped-line", "VerifC02Gate", {"ascii": "1", "maxlen": "", "after-changes": "1", "m20name": "1"}),
+            spec("C02/gate/m20-shaped-line", "VerifC02Gate", {"ascii": "1", "maxlen": "", "m20name": "1"}),
             spec("C02/gate/bytes<=2", "VerifC02Gate", {"ascii": "0", "maxlen": "xx"}, tier="thorough"),
             spec("C02/gate/ascii<=6", "VerifC02Gate", {"ascii": "1", "maxlen": "xxxxxx"}, tier="thorough"),
             spec("C02/bad-report/latest-text", "VerifC02BadReportLatest"),
